@@ -180,6 +180,7 @@ class SimNet:
         self.lat_jit = float(k.get("lat_jit", 0.045))
         self.tail_p = float(k.get("tail_p", 0.0))
         self.tail_max = float(k.get("tail_max", 2.0))
+        self.hash_payloads = bool(k.get("trace_payload_hash", True))
         # explicit mode: set of (send index, kind) that fire, rates ignored
         ex = k.get("explicit_faults")
         self.explicit = None if ex is None else {(int(n), kind) for n, kind in ex}
@@ -272,7 +273,10 @@ class SimNet:
         return hit
 
     def send(self, tr: SimTransport, data: bytes, dst: tuple) -> None:
-        pkt = self._mk(tr.addr, dst, data, tr.host.name, LABEL[0], CAUSE.get())
+        label = LABEL[0]
+        if label is None and len(data) > 22:
+            label = data[22]
+        pkt = self._mk(tr.addr, dst, data, tr.host.name, label, CAUSE.get())
         self._route(pkt, tr.host)
 
     def inject(self, src: tuple, dst: tuple, data: bytes, delay: float | None = None, label: Any = "inject",  # noqa: ANN401
@@ -297,7 +301,7 @@ class SimNet:
         n = self.n_sent
         u_loss, u_dup, u_cor, l1, l2, u_tail, u_pos = (rng.random(), rng.random(), rng.random(), rng.random(),
                                                       rng.random(), rng.random(), rng.random())
-        self.world.trace.event("send", pkt.src_node, pkt.label, (pkt.dst, len(pkt.data), _h(pkt.data)))
+        self.world.trace.event("send", pkt.src_node, pkt.label, (pkt.dst, len(pkt.data), self._h(pkt.data)))
         dst = pkt.dst
         # NAT / LAN routing at the source
         if host is not None and host.nat is not None:
@@ -381,7 +385,7 @@ class SimNet:
             return
         self.n_delivered += 1
         tr.received += 1
-        self.world.trace.event("recv", tr.host.name, pkt.label, (pkt.wire_src, len(pkt.data), _h(pkt.data)))
+        self.world.trace.event("recv", tr.host.name, pkt.label, (pkt.wire_src, len(pkt.data), self._h(pkt.data)))
         for f in self.on_deliver:
             f(pkt, tr)
         try:
@@ -395,6 +399,10 @@ class SimNet:
                                         "where": where[-3:], "data": pkt.data, "src": pkt.wire_src, "pkt": pkt.id,
                                         "injected": pkt.injected})
             self.world.trace.event("recv_exception", tr.host.name, type(e).__name__)
+
+    def _h(self, data: bytes) -> str:
+        # ECDSA signatures are randomised inside the Rust extension: runs using those curves switch payload hashing off
+        return _h(data) if self.hash_payloads else ""
 
     # ----------------------------------------------------------- crash support
     def kill_host(self, name) -> None:  # noqa: ANN001
